@@ -10,6 +10,7 @@ use crate::engine::json::J;
 use crate::engine::{fmt_words, guarded, hash_words, Case, Local, Run};
 use crate::model::alpha;
 use crate::model::tt::{nbits, Gather32, TT};
+use super::xsize::Tour;
 use crate::{for_static, for_type};
 
 /// (class, pos_unate, neg_unate) by the definition
@@ -80,6 +81,9 @@ pub fn check_one<L: Tab>(t: &TT, v: usize) -> Result<&'static str, (String, Stri
 }
 
 pub fn replay(case: &Case) -> Result<Verdict, String> {
+    if case.opt("kind") == Some("tour") {
+        return super::xsize::replay(case, &tour);
+    }
     let st = parse_ty(case.get("ty")?)?;
     let n = case.usize("n")?;
     let t = TT::from_words(n, &case.words("t")?).ok_or("t malformed")?;
@@ -286,6 +290,109 @@ fn alphabet<L: Tab>(run: &Run, st: bool, n: usize) {
     });
 }
 
+// ------------------------------------------------------------------------------ histories
+
+fn check_ty(st: bool, t: &TT, v: usize) -> Verdict {
+    fn go<L: Tab>(t: &TT, v: usize) -> Verdict {
+        check_one::<L>(t, v).map(|_| ())
+    }
+    for_type!(st, t.n, go(t, v))
+}
+
+/// a few tables of s variables covering the classes at the lowest and the highest variable
+fn batch_tables(s: usize) -> Vec<TT> {
+    let mut v: Vec<TT> = alpha::named(s).into_iter().take(6).collect();
+    let g = |m: usize, bit: usize| alpha::popcount(m & !bit) % 3 == 0;
+    for var in [0usize, s - 1] {
+        let bit = 1usize << var;
+        v.push(TT::from_fn(s, |m| m & bit != 0 && g(m, bit)));
+        v.push(TT::from_fn(s, |m| m & bit != 0 || g(m, bit)));
+        v.push(TT::from_fn(s, |m| (m & bit != 0) != g(m, bit)));
+        v.push(TT::from_fn(s, |m| if m & bit != 0 { g(m, bit) } else { alpha::popcount(m) % 2 == 0 }));
+    }
+    v
+}
+
+fn tour_sizes(thorough: bool) -> Vec<usize> {
+    (1..=if thorough { 12 } else { 10 }).collect()
+}
+
+fn word_list() -> Vec<u64> {
+    let mut w: Vec<u64> = (0..256u64).collect();
+    for t in alpha::named(4).iter().chain(alpha::low_weight(4, 1).iter()) {
+        w.push(t.w[0]);
+    }
+    for t in alpha::named(5) {
+        w.push(t.w[0]);
+    }
+    w.sort();
+    w.dedup();
+    w
+}
+
+const WORDS_PER_TOUR: usize = 16;
+
+pub fn tour_count(which: &str, thorough: bool) -> usize {
+    match which {
+        "sizes" => tour_sizes(thorough).len(),
+        _ => (word_list().len() + WORDS_PER_TOUR - 1) / WORDS_PER_TOUR,
+    }
+}
+
+/// "sizes": the size changes slowest — for every ordered pair of sizes (a, b), a batch of
+/// queries at a then at b. "words": the size changes fastest — the same table word and
+/// variable queried at consecutive sizes (all ordered pairs of the sizes it is a table of).
+pub fn tour(which: &str, k: usize, thorough: bool) -> Result<Tour, String> {
+    let mut t = Tour::new(format!("{}:{}", which, k));
+    match which {
+        "sizes" => {
+            let sizes = tour_sizes(thorough);
+            let a = *sizes.get(k).ok_or("no such tour")?;
+            for s in super::xsize::size_pairs_from(a, &sizes) {
+                for tab in batch_tables(s) {
+                    for v in 0..s {
+                        for st in [false, true] {
+                            let tb = tab.clone();
+                            t.push(format!("{} n={} [{}] v={}", if st { "LutN" } else { "Lut" }, s, fmt_words(&tb.w), v), move || check_ty(st, &tb, v));
+                        }
+                    }
+                }
+            }
+        }
+        "words" => {
+            let words = word_list();
+            let chunk: Vec<u64> = words.iter().skip(k * WORDS_PER_TOUR).take(WORDS_PER_TOUR).copied().collect();
+            if chunk.is_empty() {
+                return Err("no such tour".into());
+            }
+            for w in chunk {
+                let sizes: Vec<usize> = (1..=8usize).filter(|n| *n >= 6 || w >> nbits(*n) == 0).collect();
+                for v in 0..3usize {
+                    for st in [false, true] {
+                        for s in super::xsize::size_pairs(&sizes) {
+                            if v >= s {
+                                continue;
+                            }
+                            let mut words = vec![0u64; crate::model::tt::nwords(s)];
+                            words[0] = w;
+                            let tb = alpha::tt_words(s, words);
+                            t.push(format!("{} n={} [{}] v={}", if st { "LutN" } else { "Lut" }, s, fmt_words(&tb.w), v), move || check_ty(st, &tb, v));
+                        }
+                    }
+                }
+            }
+        }
+        _ => return Err(format!("unknown tour family {}", which)),
+    }
+    Ok(t)
+}
+
+fn histories(run: &Run) {
+    let th = run.thorough();
+    super::xsize::run_tours(run, "C06", "sizes (a batch of queries per size, every ordered pair of sizes consecutively)", "sizes 1..=10 (thorough 12); per size 14 tables covering the classes at the lowest and highest variable x all v x both types; the answer must not depend on what was analysed before on the thread", tour_count("sizes", th), &|k| tour("sizes", k, th).unwrap());
+    super::xsize::run_tours(run, "C06", "words (the same table word and variable at consecutive sizes, every ordered pair of sizes)", "all 256 words of 3-variable tables plus named 4- and 5-variable words, as tables of every size 1..=8 they fit; v in 0..3; both types", tour_count("words", th), &|k| tour("words", k, th).unwrap());
+}
+
 pub fn run(run: &Run) {
     run.set_rule("state = one table; transition = top_decomposition(v) + is_pos_unate(v) + is_neg_unate(v); non-trivial = the class is not Independent; outcomes = histogram of the nine classes");
     run.assume("reference model: cofactors by assignment and the priority list of the statement (props::c06::model_class)");
@@ -317,6 +424,7 @@ pub fn run(run: &Run) {
     for n in 13..=14usize {
         al::<volute::Lut>(run, false, n);
     }
+    histories(run);
     let _ = for_static!(0, nop());
 }
 
